@@ -89,6 +89,37 @@ func c18Jobs(max int) []c18Job {
 			wrong = append(wrong, it)
 		}
 	}
+	// nested documents for serialization formats whose tests carry no binary sample (cbor, bencode) or only flat
+	// ones: depth 9, cut at 60% they fail deep inside nested values
+	nest := func(open, leaf, close []byte, depth int) []byte {
+		var b []byte
+		for i := 0; i < depth; i++ {
+			b = append(b, open...)
+		}
+		b = append(b, leaf...)
+		for i := 0; i < depth; i++ {
+			b = append(b, close...)
+		}
+		return b
+	}
+	for _, g := range []struct {
+		format string
+		data   []byte
+	}{
+		{"cbor", nest([]byte{0x81}, []byte{0x83, 0x01, 0x61, 0x61, 0xa1, 0x61, 0x6b, 0x82, 0x02, 0x43, 1, 2, 3}, nil, 9)},
+		{"msgpack", nest([]byte{0x91}, []byte{0x93, 0x01, 0xa1, 0x61, 0x81, 0xa1, 0x6b, 0x92, 0x02, 0xc4, 3, 1, 2, 3}, nil, 9)},
+		{"bencode", nest([]byte("l"), []byte("i1e1:ad1:kli2e3:abcee"), []byte("e"), 9)},
+		{"json", nest([]byte("["), []byte(`1,"a",{"k":[2,"abc"]}`), []byte("]"), 9)},
+		{"xml", nest([]byte("<a>"), []byte(`<b x="1">t</b><c/>`), []byte("</a>"), 9)},
+		{"yaml", []byte("a:\n  b:\n    c:\n      d:\n        e:\n          - 1\n          - k: [2, abc]\n")},
+		{"toml", []byte("[a.b.c.d.e]\nf = [[[[[1, \"a\"]]]]]\ng = { k = [2, \"abc\"] }\n")},
+	} {
+		add("generated:"+g.format+"-nested", g.data, "-d", g.format, "dv")
+		jobs[len(jobs)-1].Good = true
+		add("generated:"+g.format+"-nested[:60%]", g.data[:len(g.data)*6/10], "-d", g.format, "dv")
+		jobs[len(jobs)-1].Trunc = true
+		add("generated:"+g.format+"-nested", g.data, "-d", g.format, "-c", "tovalue")
+	}
 	// failing decodes: a sample under a foreign format
 	foreign := []string{"mp3", "png", "zip", "msgpack", "json", "elf", "mp4", "gzip", "tar", "flac", "pcap", "wav"}
 	for i, it := range wrong {
